@@ -313,7 +313,7 @@ theorem evalItems_lift (hrefl : ∀ s, R s s) (htrans : ∀ a b c, R a b → R b
           (fun key c s v s' hm => hrec key c s v s' (List.mem_cons_of_mem _ hm)) hI1 h2
         exact ⟨hI2, htrans _ _ _ hR1 hR2⟩
 
-theorem xrefLoop_lift (hrefl : ∀ s, R s s)
+theorem xrefLoop_lift (hrefl : ∀ s, R s s) (htrans : ∀ a b c, R a b → R b c → R a c)
     {rec : Rec} {root : Node} {rs : Bool} {self : Path}
     (hsee : rs = false → ∀ s, I s → I (seeTaint s) ∧ R s (seeTaint s))
     (hrec : ∀ m tp s v s', getNode root tp = some m → I s → rec rs m tp s = .ok (v, s') → I s' ∧ R s s') :
@@ -342,7 +342,14 @@ theorem xrefLoop_lift (hrefl : ∀ s, R s s)
           · cases hn
           · cases hn
             split at h
-            · exact xrefLoop_lift hrefl hsee hrec fuel _ _ _ v st' hI h
+            · split at h
+              · split at h
+                · cases h
+                · rename_i hrs
+                  have hs := hsee (by simpa using hrs) _ hI
+                  have := xrefLoop_lift hrefl htrans hsee hrec fuel _ _ _ v st' hs.1 h
+                  exact ⟨this.1, htrans _ _ _ hs.2 this.2⟩
+              · exact xrefLoop_lift hrefl htrans hsee hrec fuel _ _ _ v st' hI h
             · exact hrec _ _ _ _ _ hgn hI h
 
 theorem ecfgLookup_lift (hrefl : ∀ s, R s s)
@@ -418,7 +425,7 @@ theorem evalImpl_lift (hrefl : ∀ s, R s s) (htrans : ∀ a b c, R a b → R b 
     · cases h; exact ⟨st, hI, hrefl _, .inl rfl⟩
     · cases h; exact ⟨st, hI, hrefl _, .inl rfl⟩
     · rename_i target
-      have := xrefLoop_lift (I := I) (R := R) hrefl hsee
+      have := xrefLoop_lift (I := I) (R := R) hrefl htrans hsee
         (fun m tp s v s' hg => hrec _ _ _ _ _ _ (Calls.target hg)) _ _ _ _ _ _ hI h
       exact ⟨st', this.1, this.2, .inl rfl⟩
     · cases h
